@@ -8,8 +8,8 @@ import (
 
 // Sequential GCS programs: generation pieces and the generic runner.
 
-var gNamesMem = []string{"a", "a.txt", "dir/a", "dir/b.txt", "sp ace.bin", "uni-é☃", "pct%41%2Fx", "a+b&c=d?e#f", "dir/sub/deep.json", "d.o.t.s", "a/b", "a0"}
-var gNamesFile = []string{"a.txt", "a/1", "a-x", "dir/a", "dir/b.txt", "sp ace.bin", "uni-é☃", "pct%41%2Fx", "a+b&c=d?e#f", "dir/sub/deep.json", "d.o.t.s", "a0", "b"}
+var gNamesMem = []string{"a", "a.txt", "dir/a", "dir/b.txt", "sp ace.bin", "uni-é☃", "pct%41%2Fx", "a+b&c=d?e#f", "dir/sub/deep.json", "d.o.t.s", "a/b", "a0", "a.txt.tmp", "a.txt~"}
+var gNamesFile = []string{"a.txt", "a/1", "a-x", "dir/a", "dir/b.txt", "sp ace.bin", "uni-é☃", "pct%41%2Fx", "a+b&c=d?e#f", "dir/sub/deep.json", "d.o.t.s", "a0", "b", "a.txt.tmp", "a.txt~", "a.txt.new"}
 var gBuckets = []string{"bkt", "other-bucket"}
 var gContentTypes = []string{"text/plain", "application/octet-stream", "application/json; charset=utf-8", "image/png", "", "application/x-www-form-urlencoded"}
 
